@@ -83,7 +83,8 @@ ApplyStep(s, rg) ==
 
 St(f, src, dst, a) == [f |-> f, src |-> src, dst |-> dst, a |-> a]
 NoArgS == [z |-> 0]
-ChainPaths == {<<Root, Idx(<<AiS(IxL(-1), IxL(0))>>)>>, <<Root, Idx(<<AiI(IxN(0)), AiI(IxN(0))>>)>>, <<Root, BrW, BrW>>, <<Root, BrW>>, <<Root, Dot(ka)>>, <<Root, DotW>>, <<Root, Idx(<<AiS(IxN(0), IxL(0))>>)>>, <<Root, Idx(<<AiI(IxL(0))>>)>>,
+ChainPaths == {<<Root, Idx(<<AiI(IxL(0)), AiI(IxN(0))>>)>>, <<Root, Idx(<<AiS(IxN(1), IxL(0)), AiI(IxN(0))>>)>>, <<Root, BrW, Idx(<<AiI(IxN(1)), AiI(IxN(0))>>)>>,
+               <<Root, Idx(<<AiS(IxL(-1), IxL(0))>>)>>, <<Root, Idx(<<AiI(IxN(0)), AiI(IxN(0))>>)>>, <<Root, BrW, BrW>>, <<Root, BrW>>, <<Root, Dot(ka)>>, <<Root, DotW>>, <<Root, Idx(<<AiS(IxN(0), IxL(0))>>)>>, <<Root, Idx(<<AiI(IxL(0))>>)>>,
                <<Root, BrW, FilterSt(EBin("gt", EPaths(<<Cur, Dot(ka)>>), EVal(PNum(u1))))>>, <<Root, BrW, Dot(ka)>>,
                <<Root, FilterSt(EExists(<<Cur, Dot(ka)>>))>>}
 
